@@ -140,6 +140,21 @@ json_t *json_string(const char *value)
 }
 
 /* ---- destruction ---- */
+/* Releasing a node does not call free() (cbmc 6.11 under DFCC needs ~15M
+ * clauses per free of a written object); the node is POISONED instead and
+ * every model entry point asserts that the node it is given is not poisoned,
+ * which detects use-after-release and double release through the jansson API.
+ * (-DVJ_MODEL_FREE restores a real free for units that can afford it.) */
+#define VJ_DEAD ((json_type)-1)
+#define VJ_LIVE(j) __CPROVER_assert((j) == NULL || (j)->type != VJ_DEAD, "jansson: value used after its last reference was dropped")
+static void vj_release(vj_t *n)
+{
+	__CPROVER_assert(n->type != VJ_DEAD, "jansson: value released twice");
+	n->type = VJ_DEAD;
+#ifdef VJ_MODEL_FREE
+	free(n);
+#endif
+}
 void json_delete(json_t *json)
 {
 	vj_t *n = (vj_t *)json;
@@ -150,14 +165,15 @@ void json_delete(json_t *json)
 		n->tracked = NULL;
 		/* one level: members of members are not modelled */
 		if (c->refcount != (size_t)-1 && --c->refcount == 0)
-			free(c);
+			vj_release(c);
 	}
-	free(n);
+	vj_release(n);
 }
 
 /* ---- accessors ---- */
 const char *json_string_value(const json_t *json)
 {
+	VJ_LIVE(json);
 	const vj_t *n = json;
 	if (n == NULL || n->type != JSON_STRING)
 		return NULL;
@@ -166,6 +182,7 @@ const char *json_string_value(const json_t *json)
 
 json_int_t json_integer_value(const json_t *json)
 {
+	VJ_LIVE(json);
 	const vj_t *n = json;
 	if (n == NULL || n->type != JSON_INTEGER)
 		return 0;
@@ -174,6 +191,7 @@ json_int_t json_integer_value(const json_t *json)
 
 json_t *json_object_get(const json_t *object, const char *key)
 {
+	VJ_LIVE(object);
 	const vj_t *o = (const vj_t *)object;
 	if (o == NULL || key == NULL || o->type != JSON_OBJECT)
 		return NULL;
@@ -186,6 +204,7 @@ json_t *json_object_get(const json_t *object, const char *key)
 
 size_t json_array_size(const json_t *array)
 {
+	VJ_LIVE(array);
 	const vj_t *a = (const vj_t *)array;
 	if (a == NULL || a->type != JSON_ARRAY)
 		return 0;
@@ -194,6 +213,7 @@ size_t json_array_size(const json_t *array)
 
 json_t *json_array_get(const json_t *array, size_t index)
 {
+	VJ_LIVE(array);
 	const vj_t *a = (const vj_t *)array;
 	if (a == NULL || a->type != JSON_ARRAY || index >= a->asize)
 		return NULL;
@@ -209,6 +229,7 @@ static void vj_drop(vj_t *c)
 
 int json_object_set_new(json_t *object, const char *key, json_t *value)
 {
+	VJ_LIVE(object);
 	vj_t *o = (vj_t *)object;
 	g_json_mutations++;
 	g_json_version++;
@@ -233,6 +254,7 @@ int json_object_set_new(json_t *object, const char *key, json_t *value)
 
 int json_object_del(json_t *object, const char *key)
 {
+	VJ_LIVE(object);
 	vj_t *o = (vj_t *)object;
 	g_json_mutations++;
 	g_json_version++;
@@ -251,6 +273,7 @@ int json_object_del(json_t *object, const char *key)
 
 int json_object_clear(json_t *object)
 {
+	VJ_LIVE(object);
 	vj_t *o = (vj_t *)object;
 	g_json_mutations++;
 	g_json_version++;
@@ -264,6 +287,7 @@ int json_object_clear(json_t *object)
 
 static int vj_update(json_t *object, json_t *other, int missing_only)
 {
+	VJ_LIVE(object);
 	vj_t *o = (vj_t *)object, *s = (vj_t *)other;
 	g_json_mutations++;
 	g_json_version++;
@@ -313,6 +337,7 @@ static vj_t *vj_copy_shallow(const vj_t *n)
 
 json_t *json_deep_copy(const json_t *value)
 {
+	VJ_LIVE(value);
 	const vj_t *n = (const vj_t *)value;
 	if (n == NULL)
 		return NULL;
@@ -380,6 +405,7 @@ json_t *json_loadf(FILE *input, size_t flags, json_error_t *error)
 
 char *json_dumps(const json_t *json, size_t flags)
 {
+	VJ_LIVE(json);
 	g_json_dumps_flags = (unsigned)flags;
 	if (json == NULL)
 		return NULL;
